@@ -9,6 +9,7 @@ import (
 
 	"verifharness/checks/c01"
 	"verifharness/checks/c03"
+	"verifharness/checks/c04"
 	"verifharness/core"
 )
 
@@ -20,6 +21,7 @@ type entry struct {
 var table = map[string]entry{
 	"C01": {"exploration", c01.Run},
 	"C03": {"fault_enumeration", c03.Run},
+	"C04": {"fault_enumeration", c04.Run},
 }
 
 func main() {
